@@ -224,6 +224,7 @@ class EngineSim(TreeSim):
     def __init__(self, bt, plan, judge):
         TreeSim.__init__(self, bt, plan, judge)
         self.spy_log = []
+        self.probe_log = []
         self.spy_hook = None
         self.wrap_monitor = None
         self.bkt = None
